@@ -353,4 +353,89 @@ theorem step_refused_pure (w : Web) (c : Call) (h : (step w c).2 = .err .stateEr
     repeat' split at h
     all_goals simp_all
 
+
+/-! ## The poll loop's fuel is never exhausted -/
+
+theorem joinTail_ne_div (w : Web) : (joinTail w).2 ≠ .diverges := by
+  unfold joinTail
+  simp only
+  split <;> simp
+
+/-- One poll of a RUNNING job: it fails, or the job is READY, or one WAITING answer of the server script is used up. -/
+theorem getAppState_running (w : Web) (hs : w.state = .running) :
+    (∃ e, (getAppState w).2 = .error e) ∨
+    ((getAppState w).2 = .ok .finished) ∨
+    ((getAppState w).2 = .ok .running ∧ (getAppState w).1.state = .running ∧ w.k ≠ 0 ∧ (getAppState w).1.k = w.k - 1) := by
+  have hc := contact_frame { w with sent := w.sent + 1, k := w.k - 1 }
+  unfold getAppState
+  rw [if_pos hs]
+  unfold isFinished
+  simp only
+  split
+  · rename_i w' e heq
+    split at heq
+    · left; exact ⟨_, rfl⟩
+    · simp at heq
+  · right; left; rfl
+  · rename_i w' heq
+    right; right
+    split at heq
+    · simp at heq
+    · rename_i w'' hc'
+      simp only [Prod.mk.injEq, Except.ok.injEq, decide_eq_false_iff_not] at heq
+      obtain ⟨h1, h2⟩ := heq
+      have : w'' = (contact { w with sent := w.sent + 1, k := w.k - 1 }).1 := by rw [hc']
+      subst h1; subst this
+      exact ⟨rfl, by simpa [hs] using hc.1, h2, by simpa using hc.2.2.2.2⟩
+
+theorem joinLoop_terminates (fuel : Nat) (t : Option Int) (w : Web)
+    (hs : w.state = .running ∨ w.state = .finished) (hf : w.k < fuel) : (joinLoop fuel t w).2 ≠ .diverges := by
+  induction fuel generalizing w with
+  | zero => omega
+  | succ n ih =>
+    unfold joinLoop
+    rcases hs with hs | hs
+    · rcases getAppState_running w hs with ⟨e, he⟩ | he | ⟨he, hst, hk0, hk⟩
+      · split
+        · simp
+        · rename_i heq; rw [heq] at he; simp at he
+      · split
+        · simp
+        · rename_i w' st heq
+          rw [heq] at he
+          simp only [Except.ok.injEq] at he
+          subst he
+          simp only [if_true]
+          exact joinTail_ne_div _
+      · split
+        · simp
+        · rename_i w' st heq
+          have hw' : w' = (getAppState w).1 := by rw [heq]
+          rw [heq] at he
+          simp only [Except.ok.injEq] at he
+          subst he
+          subst hw'
+          simp only [show (AppState.running = AppState.finished) = False by simp, if_false]
+          have hlt : (sleepInterval (getAppState w).1).k < n := by
+            simp only [sleepInterval, hk]; omega
+          have hst' : (sleepInterval (getAppState w).1).state = .running := by simpa [sleepInterval] using hst
+          split
+          · split
+            · simp [errTimeout]
+            · exact ih _ (Or.inl hst') hlt
+          · exact ih _ (Or.inl hst') hlt
+    · have : getAppState w = (w, .ok .finished) := by unfold getAppState; simp [hs]
+      rw [this]
+      simp only [if_true]
+      exact joinTail_ne_div _
+
+/-- `join` on a web job never runs out of the model's fuel: with a server that becomes READY after `k` polls the loop ends
+(by READY, by a timeout, or by an exception of `is_finished()`), for every timeout. -/
+theorem joinBody_terminates (w : Web) (t : Option Int) (hs : w.state = .running ∨ w.state = .finished) :
+    (joinBody w t).2 ≠ .diverges := by
+  unfold joinBody
+  apply joinLoop_terminates
+  · simpa [sleepInterval] using hs
+  · simp only [sleepInterval]; omega
+
 end BiotiteModel.C20.Web
